@@ -120,6 +120,11 @@ def main():
         survives = builds and len(results) >= 5 and all(" 0 failed" in l for l in results) and "FAILED" not in o
         rec["baseline"] = "survives" if survives else ("no-build" if not results else "killed")
         if survives:
+            rcb, ob = sh("cargo build --offline --all-features 2>&1 | grep -cE '^error'", cwd=wt, env=env, timeout=2400)
+            if ob.strip() not in ("0", ""):
+                survives = False
+                rec["baseline"] = "no-build"
+        if survives:
             det = {}
             for cp in files[f][:4]:
                 sh("rsync -a --delete --exclude work --exclude .git --exclude evidence --exclude seeded --exclude experiments %s/ %s/" % (VERIF, vv))
@@ -144,6 +149,11 @@ def report():
         if fn.endswith(".jsonl"):
             rows += [json.loads(l) for l in open(os.path.join(OUT, fn))]
     n = len(rows)
+    # a mutant in feature-gated code can pass the default-feature suite without ever being compiled: if every check
+    # then fails to build the recorder (tool error), it is a non-building mutant, not a survivor
+    for r in rows:
+        if r["baseline"] == "survives" and r.get("checks") and all(c.get("tool_error") and not c.get("violations") for c in r["checks"].values()):
+            r["baseline"] = "no-build"
     surv = [r for r in rows if r["baseline"] == "survives"]
     det = [r for r in surv if r.get("detected_by")]
     print("%d mutants: %d do not build, %d killed by the repository's suite, %d survive it; of those %d detected by the checks, %d not" % (
